@@ -7,6 +7,7 @@ import DL.Model.CFJson
 import DL.Model.CFRules
 import DL.Model.RegexJson
 import DL.Model.ScopeJson
+import DL.Model.FixBuild
 
 /-! `dlmodel`: one JSON request per line on stdin, one JSON answer per line on stdout. -/
 open Lean (Json)
@@ -180,6 +181,11 @@ def dispatch (j : Json) : Except String Json := do
   | "cf" => runCf j
   | "rx" => DL.Rx.runRx j
   | "scope" => DL.Scope.runScope j
+  | "fixb" => do
+    let v ← getStr j "v"
+    pure (Json.mkObj [("text", match DL.FixBuild.jsxAttrQuote v.toList with
+      | some t => Json.str (String.ofList t)
+      | none => Json.null)])
   | m => throw s!"unknown model {m}"
 
 end Drv
